@@ -44,10 +44,12 @@ Next == \E j \in DOMAIN Nodes[node + 1].e :
           /\ g' = Ghost(g, Alphabet[e[2]], RespOf(e), nd.pre, Nodes[e[1] + 1].pre, Mon)
           /\ last' = [from |-> node, req |-> Alphabet[e[2]], ok |-> e[3] = 1, stale |-> StaleRevoke(nd, e)]
 Spec == Init /\ [][Next]_<<node, g, last>>
-View == <<node, g>>
+View == <<node, g, IF "stale" \in DOMAIN last THEN last.stale ELSE FALSE>>
 
 C06a == Inv_C06a(g, K)
 C06b == Inv_C06b(g)
+\* only the known class: clause (a) becomes false exactly at a stale revocation
+C06aStale == ("stale" \in DOMAIN last /\ last.stale) => Inv_C06a(g, K)
 
 ---------------------------------------------------------------------------
 \* (no set of ALL edges is ever built)
@@ -83,7 +85,7 @@ Describe(p) == LET nd == Nodes[p[1]] e == nd.e[p[2]] IN
 Brief(p) == LET nd == Nodes[p[1]] e == nd.e[p[2]] IN [node |-> nd.id, ri |-> e[2], req |-> Alphabet[e[2]]]
 FirstN(S, n) == LET q == SetToSeq(S) IN SubSeq(q, 1, Min(n, Len(q)))
 
-Report ==
+FullReport ==
   [ nodes |-> Len(Nodes), edges |-> NEdges, accepted |-> NAccepted,
     ndivergent |-> Cardinality(Divergent), divergences |-> [i \in DOMAIN FirstN(Divergent, 12) |-> Describe(FirstN(Divergent, 12)[i])],
     impl_stricter |-> Cardinality(Stricter), impl_laxer |-> Cardinality(Laxer),
@@ -93,5 +95,6 @@ Report ==
     on_bound_states |-> Cardinality({i \in DOMAIN Nodes : OnBound(Nodes[i].pre)}),
     routed_states |-> Cardinality({i \in DOMAIN Nodes : Routed(Nodes[i].pre)}),
     pending_states |-> Cardinality({i \in DOMAIN Nodes : Pending(Nodes[i].pre)}) ]
+Report == IF IOEnv.PM_FULL = "1" THEN FullReport ELSE [nodes |-> Len(Nodes)]
 ASSUME JsonSerialize(IOEnv.PM_REPORT, Report)
 =============================================================================
